@@ -722,6 +722,8 @@ def jobs_c09(tier="quick", seed=0):
 def jobs_c10(tier="quick", seed=0):
     yield Job("C10/align_address", align_address_harness, setup=lambda: shims.installed([UT]), kind="E", func="gtirb_rewriting.utils:align_address")
     yield Job("C10/abi-nop", nop_harness, kind="E", func="gtirb_rewriting.abi:ABI.nop (all registered ABIs)", expect_cover=("enumerated",))
+    from . import kernels
+    yield from kernels.jobs_for("C10", tier, seed)
     yield Job("C10/noop-splitjoin-alignment-bounded", c10_bounded(tier, seed), kind="B", func="gtirb_rewriting.prepare:prepare_for_rewriting / intervalutils")
 
 
